@@ -8,6 +8,7 @@ import WK.Spec.C40
     nd <ch> <ct> <no> <id> <key> <type> <vis> <occ> <payload> <upd>   Node.AppendMessageEvent on the slot leader
                                                                          (real stream cache; durable writes through the real slot FSM)
     lose                                                                 the leader restarts (empty stream cache)
+    cap <n>                                                              set the stream cache's session capacity (maxSessions)
     rt <l1> <l2> <owners>                                                real route-table change: leaders of Slot 1 / Slot 2 (node 1|2),
                                                                          owners = one digit (1|2) per hash slot, e.g. 1121
     q <ch> <ct> <no>                                                     read cursor and lanes
@@ -147,6 +148,10 @@ structure JSt where
   firsts : List ((MsgKey × Bytes) × Triple) := [] -- result of the first durable application of an event id
   pending : List (MsgKey × List Bytes) := []      -- lanes open in the leader cache, per the implementation's acknowledgements
   sess : List MsgKey := []                        -- messages with a cache session since the last loss / finish
+  unsure : List MsgKey := []                      -- sessions with no open lane that an admission at capacity may have evicted
+  acked : List ((MsgKey × Bytes) × Snap) := []    -- last acknowledged cached content of each pending lane
+  cfirst : List ((MsgKey × Bytes) × (Bytes × Snap × Status)) := []  -- first cache-level result of each event id of a live session
+  tainted : List (MsgKey × Bytes) := []           -- pending lanes whose acknowledged content was silently dropped
 
 def worst (a b : String) : String := if a == "ok" then b else a
 
@@ -167,9 +172,10 @@ def judgeEvent (j : JSt) (raw : RawEvent) (node : Bool) (impl : String) : JSt ×
     | ["invalid"] => (j, "ok")     -- refusing is always fail-closed; the model diff reports the disagreement
     | ["cachemiss"] => (j, "ok")
     | ["notleader"] => (j, "ok")
-    | "ok" :: k :: sq :: st :: _ :: rest =>
-      match hexDecode k, sq.toNat?, pSt st, pObs rest with
-      | some k, some sq, some st, some new =>
+    | ["backpressure"] => (j, "ok")
+    | "ok" :: k :: sq :: st :: ls :: rest =>
+      match hexDecode k, sq.toNat?, pSt st, pObs rest, pLane ls with
+      | some k, some sq, some st, some new, some rl =>
         let prev := (aget ev.msg j.obs).getD {}
         let v0 := judgeObs j ev.msg new
         let trip : Triple := (k, sq, st)
@@ -181,31 +187,83 @@ def judgeEvent (j : JSt) (raw : RawEvent) (node : Bool) (impl : String) : JSt ×
         -- record the first durable application (the cursor moved and the result carries the new seq)
         let firsts := if durable && (aget (ev.msg, ev.id) j.firsts).isNone && prev.cur < new.cur && sq == new.cur
           then aput (ev.msg, ev.id) trip j.firsts else j.firsts
-        let pend := (aget ev.msg j.pending).getD []
-        let hasSess := j.sess.contains ev.msg
+        let j := { j with obs := aput ev.msg new j.obs, firsts := firsts }
+        let m := ev.msg
+        let pend := (aget m j.pending).getD []
+        let unsure := j.unsure.contains m
         let addK := if pend.contains k then pend else k :: pend
-        let (pending, sess, v2) :=
-          if !node then (j.pending, j.sess, "ok")
+        let (j2, v2) : JSt × String :=
+          if !node then (j, "ok")
           else if !durable then
-            -- acknowledged cache-only event: the session exists; an open lane now holds non-durable content
-            (if st.terminal then j.pending else aput ev.msg addK j.pending,
-             if hasSess then j.sess else ev.msg :: j.sess, "ok")
+            -- an acknowledged cache-only event
+            let known := j.sess.contains m && !unsure
+            -- a session with an open (pending) lane is never evicted: only then is the cache's memory certain
+            let alive := known && !pend.isEmpty
+            match (if alive then aget (m, ev.id) j.cfirst else none) with
+            | some f =>
+              -- replayed event id inside a live session: the stored result, nothing applied again
+              (j, if f == (k, rl.snap, st) then "ok" else "viol:replay-applied-twice")
+            | none =>
+              -- new id (or a session the cache may have forgotten: start over for this message)
+              let j := if alive then j else
+                { j with cfirst := j.cfirst.filter (fun x => x.1.1 != m), acked := j.acked.filter (fun x => x.1.1 != m),
+                         tainted := j.tainted.filter (fun x => x.1 != m) }
+              -- admitting a NEW session may evict any session whose lanes are all terminal
+              let j := if known then j else
+                let victims := j.sess.filter fun x => x != m && ((aget x j.pending).getD []).isEmpty
+                { j with sess := m :: j.sess.filter (fun x => x != m && !victims.contains x),
+                         unsure := (victims ++ j.unsure).filter (· != m) }
+              if st.terminal then ({ j with cfirst := aput (m, ev.id) (k, rl.snap, st) j.cfirst }, "ok")
+              else
+                -- continuity: the acknowledged lane content extends what was acknowledged before
+                let broken := match (if alive && pend.contains k then aget (m, k) j.acked else none) with
+                  | some a =>
+                    let expected := match ev.ty with
+                      | .delta => reduceDelta a ev.pl
+                      | .snapshot => ev.pl.view
+                      | _ => a
+                    rl.snap != expected
+                  | none => false
+                ({ j with cfirst := aput (m, ev.id) (k, rl.snap, st) j.cfirst, acked := aput (m, k) rl.snap j.acked,
+                          pending := aput m addK j.pending,
+                          tainted := if broken then (m, k) :: j.tainted else j.tainted }, "ok")
           else if ev.ty == .finish then
-            let v := if pend.isEmpty && !hasSnapshot ev.pl then "viol:finish-not-fail-closed"
-                     else if !finishCovers pend new then "viol:finish-dropped-cached-lane" else "ok"
-            (adel ev.msg j.pending, j.sess.filter (· != ev.msg), v)
+            let lost := j.tainted.any fun x => x.1 == m && pend.contains x.2
+            -- every pending lane must end closed with the content that was acknowledged for it
+            let wrong := pend.any fun lk =>
+              match aget (m, lk) j.acked, aget lk prev.lanes, aget lk new.lanes with
+              | some a, pl, some nl =>
+                a != .none && snapIsJSON a && (termOf ev.pl).1 == .none &&
+                (match pl with | some p => !p.status.terminal | none => true) && nl.snap != a
+              | _, _, _ => false
+            let v := if unsure then "ok"
+                     else if pend.isEmpty && !hasSnapshot ev.pl then "viol:finish-not-fail-closed"
+                     else if !finishCovers pend new then "viol:finish-dropped-cached-lane"
+                     else if lost || wrong then "viol:finish-dropped-acknowledged-deltas" else "ok"
+            ({ j with pending := adel m j.pending, sess := j.sess.filter (· != m), unsure := j.unsure.filter (· != m),
+                      cfirst := j.cfirst.filter (fun x => x.1.1 != m), acked := j.acked.filter (fun x => x.1.1 != m),
+                      tainted := j.tainted.filter (fun x => x.1 != m) }, v)
           else
             -- close/error/cancel: markTerminalPersisted copies the returned lane into an existing session
             -- (a replayed id may return a lane that is still open: it is then open in the cache too)
-            if !hasSess then (j.pending, j.sess, "ok")
-            else (aput ev.msg (if st.terminal then pend.filter (· != k) else addK) j.pending, j.sess, "ok")
-        ({ j with obs := aput ev.msg new j.obs, firsts := firsts, pending := pending, sess := sess }, worst v0 (worst v1 v2))
-      | _, _, _, _ => (j, "viol:unparseable-output")
+            if !j.sess.contains m || unsure then (j, "ok")
+            else
+              let v := if st.terminal && j.tainted.contains (m, k) then "viol:finish-dropped-acknowledged-deltas" else "ok"
+              ({ j with pending := aput m (if st.terminal then pend.filter (· != k) else addK) j.pending,
+                        cfirst := aput (m, ev.id) (k, rl.snap, st) j.cfirst,
+                        acked := if st.terminal then j.acked.filter (fun x => x.1 != (m, k)) else aput (m, k) rl.snap j.acked,
+                        tainted := if st.terminal then j.tainted.filter (· != (m, k)) else j.tainted }, v)
+        (j2, worst v0 (worst v1 v2))
+      | _, _, _, _, _ => (j, "viol:unparseable-output")
     | _ => (j, "viol:unparseable-output")
 
 def c40Step (j : JSt) (op impl : String) : JSt × String × String :=
   match fields op with
-  | ["lose"] => ({ j with n := loseCache j.n, pending := [], sess := [] }, "ok", "ok")
+  | ["lose"] => ({ j with n := loseCache j.n, pending := [], sess := [], unsure := [], acked := [], cfirst := [], tainted := [] }, "ok", "ok")
+  | ["cap", c] =>
+    match c.toNat? with
+    | some c => if c == 0 || c > 100000 then (j, "bad-op", "ok") else ({ j with n := { j.n with cap := c } }, "ok", "ok")
+    | none => (j, "bad-op", "ok")
   | ["rt", a, b, os] =>
     let own := os.toList.map fun c => c.toNat - 48
     match a.toNat?, b.toNat? with
@@ -215,7 +273,9 @@ def c40Step (j : JSt) (op impl : String) : JSt × String × String :=
       -- the judge's view of which cached sessions an honest leader must forget
       let lost := lostSlots j.n.route r
       let gone := fun (m : MsgKey) => lost.contains (hashSlotOf m.ch own.length)
-      ({ j with n := setRoute j.n r, pending := j.pending.filter (fun p => !gone p.1), sess := j.sess.filter (fun m => !gone m) },
+      ({ j with n := setRoute j.n r, pending := j.pending.filter (fun p => !gone p.1), sess := j.sess.filter (fun m => !gone m),
+                unsure := j.unsure.filter (fun m => !gone m), acked := j.acked.filter (fun x => !gone x.1.1),
+                cfirst := j.cfirst.filter (fun x => !gone x.1.1), tainted := j.tainted.filter (fun x => !gone x.1) },
         "ok", "ok")
     | _, _ => (j, "bad-op", "ok")
   | ["q", ch, ct, no] =>
@@ -251,6 +311,7 @@ def c40Step (j : JSt) (op impl : String) : JSt × String × String :=
         | .ok, some r, some ev => "ok " ++ resStr r ++ " " ++ obsStr (obsOf n'.db ev.msg)
         | .cachemiss, _, _ => "cachemiss"
         | .notleader, _, _ => "notleader"
+        | .backpressure, _, _ => "backpressure"
         | _, _, _ => "invalid"
       let j1 := { j with n := n' }
       let (j2, v) := judgeEvent j1 raw true impl
